@@ -2384,6 +2384,9 @@ bool BW_MidiSequencer::loadMIDI(FileAndMemReader &fr)
 
     m_atEnd            = false;
     m_loop.fullReset();
+    // Keep the loop count that has been set: when the file gets rejected early, the previous song stays loaded
+    m_loop.loopsCount = m_loopCount;
+    m_loop.loopsLeft = m_loopCount;
     m_loop.caughtStart = true;
 
     m_format = Format_MIDI;
